@@ -12,10 +12,11 @@ Definition exn_nesting := nesting.
 Definition exn_max := exc_max_depth.
 Definition exn_init := st_init.
 Definition exn_depth := depth.
+Definition exn_kind_of := kind_of.
 
 (* ocaml/conv.ml.inc (prepended to every driver) mentions positive, Z and N *)
 Definition exn_conv_z : Z := 0%Z.
 Definition exn_conv_n : N := 0%N.
 
 Extraction Language OCaml.
-Extraction "../ocaml/gen/Exn.ml" exn_mach_clr exn_ref exn_nesting exn_max exn_init exn_depth exn_conv_z exn_conv_n.
+Extraction "../ocaml/gen/Exn.ml" exn_mach_clr exn_ref exn_nesting exn_max exn_init exn_depth exn_kind_of exn_conv_z exn_conv_n.
